@@ -67,6 +67,9 @@ TWire ==
                               "returned count / box_size() differ from the bytes written (constructed value)", <<Id, b.ret, b.box_size, Len(b.enc)>>)
                      /\ Check(b.rt_res = "ok" /\ b.rt_eq /\ b.rt_pos = Len(b.enc), "C04",
                               "decode(encode(x)) differs from the constructed x or does not consume exactly the box", <<Id, b.rt_res, b.rt_eq, b.rt_pos, Len(b.enc)>>)
+     \* the bytes decode to the same value through a stream that transfers fewer bytes per call than
+     \* requested (one byte, up to 7, up to 300 per call)
+     /\ Check(ev.split_ok, "C04", "decode(encode(x)) through a stream with short transfers differs from x", Id)
      /\ Check(ev.dec.res # "ok" \/ ev.dec.hdr_type = CodeOf(ev.t), "C05", "header read with another box type", <<Id, ev.dec.hdr_type>>)
      /\ \A i \in 1..Len(ev.variants) :
           LET x == ev.variants[i] IN
